@@ -16,7 +16,8 @@ Init == tid \in 1..Len(Traces) /\ l = 1 /\ got = FALSE /\ bad = {}
 EvGot == /\ E.t = "got" /\ got' = TRUE
          /\ bad' = bad \cup Flag("C06_Sender", E.sender = T.sent.sender)
                        \cup Flag("C06_Recipients", E.rcpts = T.sent.rcpts)
-                       \cup Flag("C06_Content", E.content = Normal(T.sent.content))
+                       \* SMTP DATA framing ends the content with CRLF (C05); the HTTP transport carries it with a Content-Length, unchanged
+                       \cup Flag("C06_Content", E.content = (IF T.cfg.kind = "http" THEN T.sent.content ELSE Normal(T.sent.content)))
                        \cup Flag("C06_Once", ~got)
 EvExt == /\ E.t = "ext" /\ UNCHANGED got
          /\ bad' = bad \cup Flag("C06_Extensions", {E.server[k] : k \in 1..Len(E.server)} = {E.client[k] : k \in 1..Len(E.client)})
